@@ -39,6 +39,7 @@ class Setup:
         connect_reply: typing.Any = None,
         socks_script: dict[str, bytes] | None = None,
         clock: typing.Any = 1000,
+        delay: typing.Any = None,
         **pool_kw: typing.Any,
     ) -> None:
         assert ct in CONN_TYPES, ct
@@ -54,6 +55,7 @@ class Setup:
                 p: Peer = H2Server(policy=h2_policy, settings=h2_settings)
             else:
                 p = H1Server(respond=responder)
+            p.delay = delay
             self.origins.append(p)
             return p
 
@@ -69,6 +71,7 @@ class Setup:
                 )
             else:
                 p = origin()
+            p.delay = delay
             self.peers.append(p)
             return p
 
